@@ -279,10 +279,11 @@ func Apply(o OpDesc, ins []modeling.Mesh) (outs []modeling.Mesh, class string, m
 		}
 		return one(meshops.FlatNormals(m)), "ok", ""
 	case "smooth_implicit":
+		dist := math.Ldexp(0.5, -o.Exp) // half a lattice unit at the mesh's scale
 		if tv {
-			return transform(meshops.SmoothNormalsImplicitWeldTransformer{Distance: 0.5}, m), "ok", ""
+			return transform(meshops.SmoothNormalsImplicitWeldTransformer{Distance: dist}, m), "ok", ""
 		}
-		return one(meshops.SmoothNormalsImplicitWeld(m, 0.5)), "ok", ""
+		return one(meshops.SmoothNormalsImplicitWeld(m, dist)), "ok", ""
 	case "laplacian":
 		if tv {
 			return transform(meshops.LaplacianSmoothTransformer{Attribute: o.Attr, Iterations: o.Iter, SmoothingFactor: o.Factor}, m), "ok", ""
